@@ -295,7 +295,7 @@ class C33(Prop):
 
     # ------------------------------------------------------------------
     def gen(self, tier, rng):
-        n = {'quick': 1500, 'thorough': 60000, 'search': 15000}[tier]
+        n = {'quick': 1500, 'thorough': 30000, 'search': 15000}[tier]
         for k in range(n):
             yield self.random_case(rng, big=(tier != 'quick' and k % 4 == 0))
 
